@@ -122,10 +122,12 @@ class CommitXlsxExporter:
                     # Create the truncated sheet name from the first 30 characters of the sheet name and name postfix
                     truncated_sheet_name = sheet_name[:30] + str(name_postfix_increment)
 
-                    # CHeck if the name does not already exist in the dictionary
+                    # Check that no other commit name was given this sheet name already (the dictionary is keyed by
+                    # the long names: the names handed out are its values) and that no sheet carries it
                     if (
                         truncated_sheet_name
-                        not in self._long_sheet_name_translation_dictionary
+                        not in self._long_sheet_name_translation_dictionary.values()
+                        and truncated_sheet_name not in self._sheets
                     ):
 
                         # Add the sheet name and truncated sheet name into the dictionary
